@@ -191,6 +191,11 @@ def build(rng, scale=1):
                 rhs = R.choice(["1", "2"])
             g.add("assignop", "%s%s = %s %s %s\n\treturn out(x, e.I0, e.P.A, e.Xs, e.M)" % (decl, lhs, lhs, op, rhs), PRE_INT)
     g.add("assignop-str", "s = s + t\n\ts = s + \"x\"\n\treturn out(s)", PRE_STR)
+    # the assigned operand on the right of the operator: only right for commutative operations
+    g.add("assignop-commuted", "s = t + s\n\ts = \"x\" + s\n\treturn out(s)", PRE_STR)
+    g.add("assignop-commuted", "x = y + x\n\tx = 2 * x\n\tx = y - x\n\tx = 100 / (x | 1)\n\tx = 3 << (uint(x) & 3)\n\treturn out(x)", PRE_INT)
+    g.add("assignop-commuted", "f = g - f\n\tf = 2 / (f + 100)\n\tf = g * f\n\treturn out(f)", PRE_FLT)
+    g.add("assignop-commuted", "col := Color(s)\n\tcol = Color(t) + col\n\te.Xs[0] = x - e.Xs[0]\n\treturn out(col, e.Xs)", PRE_INT + PRE_STR)
     g.add("assignop-flt", "f = f * g\n\tf = f - 1\n\tf = f + 1\n\treturn out(f)", PRE_FLT)
     g.add("assignop-u8", "u = u + 1\n\tu = u - v\n\tu = u << 1\n\treturn out(u)", PRE_U8)
     # ---- len / string / bytes idioms ----------------------------------------------------
@@ -280,6 +285,11 @@ def build(rng, scale=1):
     # ---- newDeref -----------------------------------------------------------------------
     for t in ["int", "string", "bool", "float64", "complex128", "uint8", "rune", "Rec", "*Rec", "[]int", "[2]int", "map[string]int", "func()", "chan int", "any", "error", "struct{ a int }", "uintptr", "time.Duration", "Str"]:
         g.add("newderef", "r := *new(%s)\n\treturn out(r)" % t)
+    # quoted code that spans several lines: line breaks separate fields and statements
+    g.add("newderef-multiline", "r := *new(struct {\n\t\ta int\n\t\tb string\n\t})\n\treturn out(r)")
+    g.add("newderef-multiline", "r := *new(struct {\n\t\ta, c int\n\t\tb []string\n\t\td func(\n\t\t\tint,\n\t\t) string\n\t})\n\treturn out(r.a, r.c, len(r.b), r.d == nil)")
+    g.add("reassign-multiline", "var err error\n\tif err = func() error {\n\t\te.t(\"one\")\n\t\te.t(\"two\")\n\t\treturn nil\n\t}(); err != nil {\n\t\treturn out(err)\n\t}\n\treturn out(err)")
+    g.add("unlambda-multiline", "fn := func(a int) int {\n\t\treturn one(\n\t\t\ta,\n\t\t)\n\t}\n\treturn out(fn(1))")
     # the same proposals inside statement headers, where a composite literal needs parentheses
     for hdr in ["if *new(Str) == st {\n\t\treturn \"eq\"\n\t}", "for *new(Str) == st {\n\t\tbreak\n\t}", "switch *new(Str) {\n\tcase st:\n\t\treturn \"case\"\n\t}",
                 "if v := *new(Str); v == st {\n\t\treturn \"eq\"\n\t}", "if *new(int) == x {\n\t\treturn \"zero\"\n\t}",
@@ -406,6 +416,10 @@ def build12(rng, scale=1):
     g.add("nilval-iface", "fn := func(p *PStr) (int, fmt.Stringer) {\n\t\tif p == nil {\n\t\t\treturn 1, p\n\t\t}\n\t\treturn 2, nil\n\t}\n\treturn out(fn(nil))")
     g.add("nilval-iface", "fn := func(m map[string]int) any {\n\t\tif m == nil {\n\t\t\treturn m\n\t\t}\n\t\treturn nil\n\t}\n\treturn out(fn(nil) == nil, fn(e.M) == nil)")
     g.add("nilval-iface", "return out(§_h(nil) == nil, §_h(e.P) == nil)\n}\n\nfunc §_h(p *Rec) Iface {\n\tif p == nil {\n\t\treturn p\n\t}\n\treturn nil")
+    # the same inside nested function literals (the innermost literal's results decide)
+    g.add("nilval-iface", "var got error\n\tfunc() {\n\t\tfn := func(p *MyErr) error {\n\t\t\tif p == nil {\n\t\t\t\treturn p\n\t\t\t}\n\t\t\treturn nil\n\t\t}\n\t\tgot = fn(nil)\n\t}()\n\treturn out(got == nil)")
+    g.add("nilval-iface", "outer := func(q *PStr) *PStr {\n\t\tinner := func(p *PStr) fmt.Stringer {\n\t\t\tif p == nil {\n\t\t\t\treturn p\n\t\t\t}\n\t\t\treturn nil\n\t\t}\n\t\te.t(out(inner(q) == nil))\n\t\treturn q\n\t}\n\treturn out(outer(nil) == nil)")
+    g.add("nilval", "outer := func() error {\n\t\tinner := func(p *Rec) *Rec {\n\t\t\tif p == nil {\n\t\t\t\treturn p\n\t\t\t}\n\t\t\treturn p.Next\n\t\t}\n\t\te.t(out(inner(nil) == nil))\n\t\treturn nil\n\t}\n\treturn out(outer())")
     g.add("nilval-shadow", "nil := e.Err\n\tfn := func(err error) error {\n\t\tif err == nil {\n\t\t\treturn err\n\t\t}\n\t\treturn e.Err\n\t}\n\treturn out(fn(e.Err), fn(nil))")
     # caseOrder: a type-parameter case is not an interface case
     g.add("caseorder-typeparam", "return out(§_h[string](e.Any), §_h[Str](e.Any), §_h[int](1), §_h[*MyErr](e.Err))\n}\n\nfunc §_h[P any](x any) string {\n\tswitch x.(type) {\n\tcase P:\n\t\treturn \"first\"\n\tcase int:\n\t\treturn \"second\"\n\tcase error:\n\t\treturn \"third\"\n\t}\n\treturn \"none\"")
